@@ -573,3 +573,31 @@ package core
 //@   ensures[C03,@empty-body] imp(d.BodyCoords.file == nil, atKeyword(result, d))
 //@   ensures[C03,C07,@error-at-directive] imp(result != nil, errAt(result, d))
 
+
+// ---------------------------------------------------------------------------
+// validateCatalog (C05: "every response has a body", every request has a body; C03: an empty INFO is rejected). The
+// closures run once per interaction (Interactions.Each, the generated iteration, is not under contract): each returns
+// nil only if the interaction it was given satisfies the clause.
+//@ extern (github.com/jsightapi/jsight-api-core/catalog.InteractionID).String(i)
+//@   attr pure deterministic nopanic
+//@ func (*JApiCore).validateResponseBody$1(k, v)
+//@   property C05
+//@   attr assumesafe
+//@   modifies nothing
+//@   ensures[C05,@response-has-body] imp(result == nil && typeis(v, *catalog.HTTPInteraction), forallp(j, at((*catalog.HTTPInteraction)(v.ref).Responses, j),
+//@       imp((*catalog.HTTPInteraction)(v.ref).Responses.off <= j && j < (*catalog.HTTPInteraction)(v.ref).Responses.off + len((*catalog.HTTPInteraction)(v.ref).Responses),
+//@           at((*catalog.HTTPInteraction)(v.ref).Responses, j).Body != nil)))
+//@ func (*JApiCore).validateResponseBody$1 loop 1
+//@   invariant 0 <= (*catalog.HTTPInteraction)(v.ref).Responses.off && forallp(j, at((*catalog.HTTPInteraction)(v.ref).Responses, j), imp((*catalog.HTTPInteraction)(v.ref).Responses.off <= j && j < (*catalog.HTTPInteraction)(v.ref).Responses.off + rangeindex + 1, at((*catalog.HTTPInteraction)(v.ref).Responses, j).Body != nil))
+//@ func (*JApiCore).validateRequestBody$1(k, v)
+//@   property C05
+//@   attr assumesafe
+//@   modifies nothing
+//@   ensures[C05,@request-has-body] imp(result == nil && typeis(v, *catalog.HTTPInteraction) && (*catalog.HTTPInteraction)(v.ref).Request != nil,
+//@       (*catalog.HTTPInteraction)(v.ref).Request.HTTPRequestBody != nil)
+//@ func (*JApiCore).validateInfo(core)
+//@   property C03
+//@   attr assumesafe
+//@   requires core != nil && core.catalog != nil
+//@   modifies nothing
+//@   ensures[C03,@empty-info] imp(core.catalog.Info != nil && core.catalog.Info.Title == "" && core.catalog.Info.Version == "" && core.catalog.Info.Description == nil, result != nil)
